@@ -42,7 +42,7 @@ S = Suite(
           "single/double, modes (16,16)/(32,24)/(24,20)); quick: all sequences of length "
           "<= 2 over threads {1,4} x reset {no,yes}; thorough: length <= 3 over {1,4} and "
           "length <= 2 over {1,2,4,8}; fresh-interpreter runs at every thread setting; 27 "
-          "one-argument variants (halo, domain, wind, z, background, measurement point, level, level order, "
+          "one-argument variants (halo, domain, wind, z, background, measurement point, level, level order, grid shape at an incommensurate halo, "
           "modes, ONE profile component u/v/Kx/Ky/Kz scaled, source values, analytic flag, footprint flag, "
           "precision) of a dispersion and a footprint solve, run before and after their base solve; two solves on the "
           "same array objects with the source / u / v array edited in place in between",
@@ -112,7 +112,13 @@ _MODS["A-disp-d/analytic"] = {"analytic": True}
 _SOLVES["A-disp-d/footprint"] = ("A", True, "double", (16, 16), 6, (0.0, 0.0), None, 0.0)
 _SOLVES["A-fp-s/levels"] = ("A", True, "single", (16, 16), [6, 2], (55.0, 30.0), None, 0.0)
 _SOLVES["A-fp-s/precision"] = ("A", True, "double", (16, 16), [2, 6], (55.0, 30.0), None, 0.0)
-VARIANTS = {b: [n for n in _SOLVES if n.startswith(b + "/")] for b in ("A-disp-d", "A-fp-s")}
+# same domain, modes and (incommensurate) halo, another number of cells: the wavenumbers depend on the cell size
+_SHAPES["Ashape"] = dict(_SHAPES["A"], nx=20, ny=10)
+_SOLVES["Ah-disp-d"] = ("A", False, "double", (16, 12), 6, (0.0, 0.0), 25.0, 0.0)
+_SOLVES["Ah-disp-d/shape"] = ("Ashape", False, "double", (16, 12), 6, (0.0, 0.0), 25.0, 0.0)
+_SOLVES["Ah-fp-d"] = ("A", True, "double", (16, 12), 6, (55.0, 30.0), 25.0, 0.0)
+_SOLVES["Ah-fp-d/shape"] = ("Ashape", True, "double", (16, 12), 6, (55.0, 30.0), 25.0, 0.0)
+VARIANTS = {b: [n for n in _SOLVES if n.startswith(b + "/")] for b in ("A-disp-d", "A-fp-s", "Ah-disp-d", "Ah-fp-d")}
 ALPHABET = ["A-disp-d", "A-disp-s", "A-fp-s", "B-fp-d", "B-fp-s", "B-disp-d"]
 _TWIN = {"A-disp-s": "A-disp-d", "A-fp-s": "A-fp-d", "B-fp-s": "B-fp-d",
          "B-disp-s": "B-disp-d"}
